@@ -58,6 +58,7 @@ class ItemSession(object):
     def skip(self):
         '''Mark the item as processed without download.'''
         _logger.debug(__(_('Skipping ‘{url}’.'), url=self.url_record.url))
+        self.finish()
         self.app_session.factory['URLTable'].check_in(self.url_record.url, Status.skipped)
 
         self._processed = True
@@ -81,6 +82,10 @@ class ItemSession(object):
 
         url_result = URLResult()
         url_result.filename = filename
+
+        # Store the discovered URLs before the item is marked finished so
+        # that a crash in between cannot lose them.
+        self.finish()
 
         self.app_session.factory['URLTable'].check_in(
             url,
